@@ -39,6 +39,7 @@ CONSTANTS App,         \* application name given to NewJWTHelper ("statshouse")
           Sessions,    \* MC: set of [mode, tok, prot, now, fam] to present
           Names,       \* MC: fam -> names asked with CanViewMetricName in sessions of that family
           Edits,       \* MC: fam -> set of [create, old, new] asked with CanEditMetric
+          ExtraBits,   \* MC: bits tried by the monotonicity invariant
           MaxOps
 
 VARIABLES now,   \* injected clock of the session
@@ -74,10 +75,11 @@ IsRC(n) == n \in RemoteConfig
     issued by vkuth, for a user, and within its validity window (with the 5-second tolerance)"
    Necessary takes the loosest reading (tolerance on every edge; exp is the instant "on or
    after which" the token is dead, RFC 7519, so exp + Tol = now is already outside).
-   Sufficient is the strictest reading of a well-formed vkuth token (kind header present, iat
-   present, nbf not in the future at all): rejecting such a token would not be "granting
-   exactly the permissions carried by a valid token".  Between the two (nbf inside the
-   tolerance, iat or kind header absent) either decision keeps the property.               *)
+   Sufficient is the strictest reading of a well-formed vkuth token (kind header, all three
+   time claims present, inside the window without any help from the tolerance): rejecting
+   such a token would not be "granting exactly the permissions carried by a valid token".
+   Between the two (a claim inside the tolerance or absent, no kind header) either decision
+   keeps the property.                                                                       *)
 SignedByNamedKey(t) == t.kid \in Configured /\ t.signer = t.kid /\ t.tamper = "none"
 
 (* the clauses, by name (a violated clause is the signature of a finding) *)
@@ -94,8 +96,9 @@ Necessary(t, nw) == TokenDeny(t, nw) = {}
 Sufficient(t, nw) ==
     /\ Necessary(t, nw)
     /\ t.kind = "token"
-    /\ t.iat # NoTime
-    /\ (t.nbf = NoTime \/ t.nbf <= nw)
+    /\ t.nbf # NoTime /\ t.nbf <= nw
+    /\ t.iat # NoTime /\ t.iat <= nw
+    /\ t.exp > nw
 
 (* THE PROPERTY, part 2: what a token carries.  "only bits prefixed with the application
    name are granted" *)
@@ -275,26 +278,25 @@ SessEditDeny(o, n) == IF sess.st = "healthcheck" THEN {"HealthcheckFallback"}
 Live == sess.st \in {"ok", "healthcheck"}
 ViewCore(n, granted) ==
     /\ Live
-    /\ last' = [op |-> "view", name |-> n, granted |-> granted]
+    /\ last' = [op |-> "view", name |-> n, granted |-> granted, deny |-> SessViewDeny(n)]
     /\ UNCHANGED <<now, sess>>
 ViewOp(n) ==
     /\ ViewCore(n, ImplCanView(sess.ai, sess.prot, n))
     /\ hist' = Append(hist, [a |-> "View", name |-> n,
-                             post |-> [impl |-> ImplCanView(sess.ai, sess.prot, n),
-                                       deny |-> SessViewDeny(n)]])
+                             post |-> [impl |-> last'.granted, deny |-> last'.deny]])
 
 EditCore(e, granted) ==
     /\ Live
-    /\ last' = [op |-> "edit", create |-> e.create, old |-> e.old, new |-> e.new, granted |-> granted]
+    /\ last' = [op |-> "edit", create |-> e.create, old |-> e.old, new |-> e.new, granted |-> granted,
+                 deny |-> SessEditDeny(e.old, e.new)]
     /\ UNCHANGED <<now, sess>>
 EditOp(e) ==
     /\ EditCore(e, ImplCanEdit(sess.ai, sess.prot, e.old, e.new))
     /\ hist' = Append(hist, [a |-> "Edit", create |-> e.create, old |-> e.old, new |-> e.new,
-                             post |-> [impl |-> ImplCanEdit(sess.ai, sess.prot, e.old, e.new),
-                                       deny |-> SessEditDeny(e.old, e.new)]])
+                             post |-> [impl |-> last'.granted, deny |-> last'.deny]])
 
 Next == /\ Len(hist) < MaxOps
-        /\ \/ \E s \in Sessions : Parse(s)
+        /\ \/ sess.st = "none" /\ \E s \in Sessions : Parse(s)
            \/ Live /\ \E n \in Names[sess.fam] : ViewOp(n)
            \/ Live /\ \E e \in Edits[sess.fam] : EditOp(e)
 
@@ -323,12 +325,12 @@ HealthcheckFallback ==
        /\ Within(sess.ai, HealthAI)
        /\ (last.op = "view" /\ last.granted) => last.name = HealthMetric
        /\ last.op = "edit" => ~last.granted
-ViewClause(c) == (OkTokenSess /\ last.op = "view" /\ last.granted)
-                    => c \notin ViewDeny(Carried(sess.tok), sess.prot, last.name)
+(* last.deny = the clauses that forbid the question just asked (computed by ViewCore / EditCore
+   from the token as presented, never from the mechanism) *)
+ViewClause(c) == (OkTokenSess /\ last.op = "view" /\ last.granted) => c \notin last.deny
 ViewNeedsRight        == ViewClause("ViewNeedsRight")
 ViewNeverRemoteConfig == ViewClause("ViewNeverRemoteConfig")
-EditClause(c) == (OkTokenSess /\ last.op = "edit" /\ last.granted)
-                    => c \notin EditDeny(Carried(sess.tok), sess.prot, last.old, last.new)
+EditClause(c) == (OkTokenSess /\ last.op = "edit" /\ last.granted) => c \notin last.deny
 EditNeedsRightOnBothNames == EditClause("EditNeedsRightOnBothNames")
 EditNeverRemoteConfig     == EditClause("EditNeverRemoteConfig")
 EditKeepsWeight           == EditClause("EditKeepsWeight")
@@ -338,15 +340,13 @@ EditKeepsSkips            == EditClause("EditKeepsSkips")
 EditKeepsRawTags          == EditClause("EditKeepsRawTags")
 
 (* Internal consistency of the mechanism (model checking only: they speak about Impl...) *)
-AdminEditsAll     == (OkTokenSess /\ last.op = "edit" /\ Carried(sess.tok).admin) => last.granted
+AdminEditsAll     == (OkTokenSess /\ last.op = "edit" /\ sess.ai.admin) => last.granted
 NoBitsNoRights    == (OkTokenSess /\ AppBits(sess.tok) = {} /\ last.op \in {"view", "edit"}) => ~last.granted
-ViewExact         == (OkTokenSess /\ last.op = "view" /\ ~Carried(sess.tok).admin)
-                        => (last.granted = MayView(Carried(sess.tok), sess.prot, last.name))
+ViewExact         == (OkTokenSess /\ last.op = "view" /\ ~sess.ai.admin) => (last.granted = (last.deny = {}))
 AIExact           == OkTokenSess => sess.ai = Carried(sess.tok)
 (* adding any bit of the universe never removes a right *)
-ExtraBits == UNION {s.tok.bits : s \in Sessions}
 Monotone ==
-    OkTokenSess =>
+    (OkTokenSess /\ last.op \in {"view", "edit"} /\ last.granted) =>
       \A b \in ExtraBits :
         LET ai2 == ImplAI([sess.tok EXCEPT !.bits = @ \cup {b}]) IN
         /\ (last.op = "view" /\ last.granted) => ImplCanView(ai2, sess.prot, last.name)
